@@ -25,7 +25,7 @@ class C05(Prop):
     level = "exploration"
     title = "Result caching is transparent"
     campaigns = {
-        "quick": [("main", 24000, 60), ("large", 16, 120), ("known:disjunction+for_all", 320, 30),
+        "quick": [("main", 16000, 60), ("large", 12, 120), ("known:disjunction+for_all", 320, 30),
                   ("known:disjunction+flatten", 320, 30), ("known:predicate_with_repeated_variable", 320, 30), ("known:disjunction_over_different_variables", 320, 30), ("known:disjunction_of_multi_variable_conjunction", 320, 30), ("rules", 3000, 40), ("known:rule_tree_with_alternative_or_next", 320, 40), ("known:kwargs_form_variable_in_multi_variable_query", 320, 30), ("known:falsy_operand", 600, 30)],
         "thorough": [("main", 250000, 1500), ("large", 160, 900), ("known:disjunction+for_all", 4000, 300),
                      ("known:disjunction+flatten", 4000, 300), ("known:predicate_with_repeated_variable", 4000, 300), ("known:disjunction_over_different_variables", 20000, 300), ("known:disjunction_of_multi_variable_conjunction", 20000, 300), ("rules", 60000, 600), ("known:rule_tree_with_alternative_or_next", 6000, 400), ("known:kwargs_form_variable_in_multi_variable_query", 40000, 400), ("known:falsy_operand", 40000, 400)],
